@@ -538,3 +538,47 @@ Proof.
   rewrite (Z.quot_small x nx), (Z.quot_small y ny), (Z.quot_small z nz) by lia.
   rewrite (Z.rem_small x nx), (Z.rem_small y ny), (Z.rem_small z nz) by lia. reflexivity.
 Qed.
+
+(* ------------------------------------------------------------ getValueRange THROUGH the adaptors
+   value_range is generic in the array's get; instantiated, it bounds (tightly) the values the ADAPTOR's own get returns
+   over the region - converted values for the accessor, re-addressed cells for the others *)
+Definition tight_over (g : vec3 IZ -> Z) (b e : vec3 IZ) (r : option (Z * Z)) : Prop :=
+  exists lo hi, r = Some (lo, hi) /\
+    (forall c, in_region b e c -> lo <= g c <= hi) /\
+    (exists c, in_region b e c /\ g c = lo) /\ (exists c, in_region b e c /\ g c = hi).
+
+Lemma value_range_tight_over a b e : in_region b e b -> tight_over (a_get a) b e (value_range a b e).
+Proof. intro H. exact (value_range_nonempty a b e H). Qed.
+
+Lemma value_range_accessor conv a b e : in_region b e b ->
+  tight_over (fun c => conv (a_get a c)) b e (value_range (accessor conv a) b e).
+Proof. intro H. exact (value_range_nonempty (accessor conv a) b e H). Qed.
+
+Lemma value_range_shifted a s b e : in_region b e b ->
+  tight_over (fun c => a_get a (shift_coord (a_dims a) s c)) b e (value_range (shifted a s) b e).
+Proof. intro H. exact (value_range_nonempty (shifted a s) b e H). Qed.
+
+Lemma value_range_subbox a (lo hi : vec3 IZ) b e : in_region b e b ->
+  tight_over (fun c => a_get a (mk_vec3 IZ (vec3_x c + vec3_x lo) (vec3_y c + vec3_y lo) (vec3_z c + vec3_z lo))) b e
+             (value_range (subbox a lo hi) b e).
+Proof. intro H. exact (value_range_nonempty (subbox a lo hi) b e H). Qed.
+
+Lemma value_range_multislice s0 rest b e : in_region b e b ->
+  tight_over (a_get (multislice s0 rest)) b e (value_range (multislice s0 rest) b e).
+Proof. intro H. exact (value_range_nonempty (multislice s0 rest) b e H). Qed.
+
+Lemma value_range_repeater a rs b e : in_region b e b ->
+  tight_over (fun c => a_get a (rep_coord rs c)) b e (value_range (repeater a rs) b e).
+Proof. intro H. exact (value_range_nonempty (repeater a rs) b e H). Qed.
+
+(* converting only the two ends of the wrapped array's range is NOT the accessor's range when the conversion is not
+   monotone on the stored values: int -> unsigned char over cells -1, 3, 300 *)
+Lemma accessor_range_endpoints_refuted :
+  exists conv a b e lo hi, in_region b e b /\ value_range a b e = Some (lo, hi) /\
+    value_range (accessor conv a) b e = Some (3, 255) /\ (conv lo, conv hi) = (255, 44).
+Proof.
+  exists (fun v => v mod 256),
+         {| a_dims := v3z 3 1 1; a_get := fun c => if vec3_x c =? 0 then -1 else if vec3_x c =? 1 then 3 else 300; a_num := 3 |},
+         (v3z 0 0 0), (v3z 3 1 1), (-1), 300.
+  split; [unfold in_region; cbn; lia|]. repeat split; vm_compute; reflexivity.
+Qed.
